@@ -146,7 +146,7 @@ class C01(WrapHarness):
         out.append(dict(base, algo='O', sep='U', gen='alpha', alphabet=ALPHA_U[:8], n=3 if q else 4, fn='wrap',
                         ind='si', imax=1))
         out.append(dict(base, feat='nd', gen='symall', n=3 if q else 4, fn='wrap'))
-        out += std_tmpl_spaces(base, q, fn='wrap')
+        out += std_tmpl_spaces(base, q, cind=True, fn='wrap')
         out += atmpl_spaces(base, ['short', 'wide'] if q else ['short', 'wide', 'sentence', 'ansi', 'hyphens'],
                             ALPHA_U[:6] if q else ALPHA_U[:10], fn='wrap')
         if not q:
